@@ -431,6 +431,33 @@ def ripple_cases():
     return out
 
 
+def pow2_pos_cases():
+    """POW2-POS: 2^N * 10^e for the decimal exponents e >= 1 at which 5^e lies within 2^-58 (relative) of a halfway
+    point (2m+1) * 2^t: every power-of-two multiple of such a 5^e is then equally close to a halfway point, so
+    D = 2^N (+ small) with exponent e reaches the big-integer path for *positive* exponents with a digit string
+    that is a power of two. For N = 64L the digit accumulation crosses 2^(64L) in its last addition (the carry
+    creates a new top limb - the positive-exponent counterpart of LIMB-EDGE)."""
+    out = []
+    for (p, emax) in ((53, 1023), (24, 127)):
+        for e in range(1, 309 if p == 53 else 39):
+            P = 5 ** e
+            t = P.bit_length() - (p + 1)
+            if t < 1:
+                continue
+            ok = False
+            for M in ((P >> t), (P >> t) + 1):
+                if M % 2 == 1 and abs(P - (M << t)) << 58 < P:
+                    ok = True
+            if not ok:
+                continue
+            for N in list(range(64, 1025, 64)) + [70, 77, 100, 127, 129, 191, 193]:
+                if N + e + P.bit_length() > emax + 1 or N < 64:
+                    continue
+                for s_ in (0, 1, 31):
+                    out.append((e, str((1 << N) + s_)))
+    return sorted(set(out))
+
+
 def main():
     ap = argparse.ArgumentParser()
     ap.add_argument('--table', default=None, help='unused: the table is recomputed from its definition')
@@ -480,6 +507,15 @@ def main():
                 if w not in seen:
                     seen.add(w)
                     lines.append(f"{fmt} {q} {w} {kind}")
+    # f32 beyond its own exponent range but inside the 128-bit table: the low-word-all-ones significands (one per
+    # table entry) - the only inputs that could reach the big-integer path there if the early 0 / infinity exit of
+    # the moderate stage were keyed to the table bounds instead of the format's (round 8, C04-P)
+    for q in list(range(-342, -65)) + list(range(39, 309)):
+        for w, kind in lemire_cases(q, 26):
+            if kind == 'lomax':
+                lines.append(f"f32 {q} {w} lomax-out")
+                if w > 1:
+                    lines.append(f"f32 {q} {w - 1} lomax-out")
     # exponents just outside the tables: every stage must answer 0 / inf there
     for fmt, qs in (('f64', (-344, -343, 309, 310)), ('f32', (-67, -66, 39, 40))):
         for q in qs:
@@ -491,6 +527,8 @@ def main():
         lines.append(f"str64 {e} {ds} limbedge")
     for e, ds in ripple_cases():
         lines.append(f"str64 {e} {ds} ripple")
+    for e, ds in pow2_pos_cases():
+        lines.append(f"str64 {e} {ds} pow2pos")
     text = "\n".join(lines) + "\n"
     if a.out == '-':
         sys.stdout.write(text)
